@@ -130,7 +130,7 @@ FewMaps == { m \in AllMaps :
                \/ DOMAIN m = {2, Fresh - 1} /\ m[2] = Fresh /\ m[Fresh - 1] = 2 }
 Maps == CASE RelabelMode = "all" -> AllMaps [] RelabelMode = "few" -> FewMaps [] OTHER -> {}
 
-RelabelOps(g) == { [Op("relabel_inplace") EXCEPT !.m = m] : m \in { x \in Maps : RelabelOK(g, x) } }
+RelabelOps(g) == { [Op("relabel_inplace") EXCEPT !.m = m] : m \in { x \in Maps : RelabelOK(g, x) \/ AtomCollision(g, x) } }
 
 LeastOf(S) == CHOOSE x \in S : \A y \in S : x <= y
 SubsetsFor(g) ==
@@ -158,7 +158,7 @@ DeriveOpsFrom(g, DS) ==
      { Op(n) : n \in DS \cap {"copy", "json_roundtrip", "compose_components", "copy_mod"} }
   \cup { [Op("copy_ctor") EXCEPT !.tk = k] : k \in IF "copy_ctor" \in DS THEN OtherKinds ELSE {} }
   \cup { [Op("relabel_copy") EXCEPT !.m = m] :
-            m \in IF "relabel_copy" \in DS THEN { x \in Maps : RelabelOK(g, x) } ELSE {} }
+            m \in IF "relabel_copy" \in DS THEN { x \in Maps : RelabelOK(g, x) \/ AtomCollision(g, x) } ELSE {} }
   \cup { [Op("subgraph") EXCEPT !.S = S] : S \in IF "subgraph" \in DS THEN SubsetsFor(g) ELSE {} }
   \cup { Op(n) : n \in DS \cap (IF HasStereo(g.kind) THEN {"enantiomer"} ELSE {}) }
   \cup { Op(n) : n \in DS \cap (IF HasRoles(g.kind) THEN {"reverse"} ELSE {}) }
